@@ -3,6 +3,7 @@ package zzverif
 import (
 	"bytes"
 	"context"
+	"google.golang.org/grpc/status"
 	"net/http/httptest"
 
 	"github.com/julienschmidt/httprouter"
@@ -87,6 +88,8 @@ type checkOut struct {
 	PBE []string `json:"pbe,omitempty"`
 	PBG []string `json:"pbg,omitempty"`
 	PBR []string `json:"pbr,omitempty"`
+	// cancel mode: the request cancelled at storage call k through the API handlers, storage slow afterwards: [transport, k, ms, status]
+	TC [][]any `json:"tc,omitempty"`
 }
 
 // memCode: I allowed, N not member, U unknown, E error, X error AND allowed.
@@ -224,6 +227,53 @@ func (e *checkEnv) runCheck(t testing.TB, q *ketoapi.RelationTuple, depth int, p
 	case <-time.After(hangGrace):
 		hangs++
 		return 'H', rs.calls(), time.Since(t0)
+	}
+}
+
+// transportCancel sends the check through an API handler, cancels the request's
+// context at the gate before storage call k, and makes storage slow from then
+// on (it returns at once when the context it was given is done, else after
+// slowStorage). A handler and engine that hand the request's context down
+// return within milliseconds.
+const slowStorage = 4 * time.Second
+
+func (e *checkEnv) transportCancel(t testing.TB, transport string, q *ketoapi.RelationTuple, depth, k int) (int, string) {
+	h := check.NewHandler(handlerDeps{e.reg, e.eng})
+	rs := &runState{slowAfterCancel: true, slowFor: slowStorage}
+	ctx, cancel := context.WithCancel(withRunState(context.Background(), rs))
+	defer cancel()
+	rs.cancelAt, rs.cancelFn = k, cancel
+	t0 := time.Now()
+	done := make(chan string, 1)
+	go func() {
+		defer func() {
+			if r := recover(); r != nil {
+				done <- fmt.Sprint("panic: ", r)
+			}
+		}()
+		switch transport {
+		case "rest":
+			router := &x.ReadRouter{Router: httprouter.New()}
+			h.RegisterReadRoutes(router)
+			qs := q.ToURLQuery()
+			qs.Set("max-depth", fmt.Sprint(depth))
+			req := httptest.NewRequest("GET", check.RouteBase+"?"+qs.Encode(), nil).WithContext(ctx)
+			rec := httptest.NewRecorder()
+			router.ServeHTTP(rec, req)
+			done <- fmt.Sprint(rec.Code)
+		case "grpc":
+			_, err := h.Check(ctx, &rts.CheckRequest{Tuple: q.ToProto(), MaxDepth: int32(depth)})
+			done <- fmt.Sprint(status.Code(err))
+		default:
+			_, err := h.BatchCheck(ctx, &rts.BatchCheckRequest{Tuples: []*rts.RelationTuple{q.ToProto(), q.ToProto()}, MaxDepth: int32(depth)})
+			done <- fmt.Sprint(status.Code(err))
+		}
+	}()
+	select {
+	case s := <-done:
+		return int(time.Since(t0).Milliseconds()), s
+	case <-time.After(hangGrace):
+		return int(time.Since(t0).Milliseconds()), "hang"
 	}
 }
 
@@ -470,6 +520,16 @@ func runGroup(t *testing.T, in *checkIn, out *ndWriter, e *checkEnv, gi, wi int,
 					}
 				}
 				o.CA = string(ca)
+				if n >= 1 && d == in.RDepths[len(in.RDepths)-1] {
+					ks := map[int]bool{1: true, (n + 1) / 2: true, n: true}
+					for k := range ks {
+						for _, tr := range []string{"rest", "grpc", "grpc_batch"} {
+							ms, status := e.transportCancel(t, tr, q, d, k)
+							o.TC = append(o.TC, []any{tr, k, ms, status})
+						}
+						waitNoKetoGoroutines(2 * time.Second)
+					}
+				}
 				out.write(o)
 			}
 		}
